@@ -15,6 +15,7 @@ type refPage struct {
 	dirty   bool  // written in the running transaction
 	flushed bool
 	isNew   bool // allocated in the running transaction
+	raw     bool // allocated but never written: content unspecified
 }
 
 type refModel struct {
@@ -68,6 +69,7 @@ const (
 	opSetRoot
 	opFreeNew
 	opPageFlush
+	opAllocRaw
 	numOps
 )
 
@@ -171,6 +173,15 @@ func (s *progState) step(tx *Tx, w *refModel) {
 		b0, b1 := verifU8("b"), s.nextSeq()
 		verifAssert(p.SetBytes(verifBuf(b0, b1, b1)) == nil, "SetBytes on a fresh page succeeds")
 		w.pages = append(w.pages, refPage{id: p.ID(), b0: b0, b1: b1, last: b1, dirty: true, isNew: true})
+	case opAllocRaw:
+		verifLog("alloc (no write)")
+		p, err := tx.Alloc()
+		if err != nil {
+			verifAssert(isKind(err, OutOfMemory), "Alloc fails only with OutOfMemory")
+			return
+		}
+		s.checkOwnership(w, p.ID())
+		w.pages = append(w.pages, refPage{id: p.ID(), isNew: true, raw: true})
 	case opAllocN:
 		verifLog("allocN(2)")
 		ps, err := tx.AllocN(2)
@@ -202,12 +213,16 @@ func (s *progState) step(tx *Tx, w *refModel) {
 			werr = p.SetBytes(verifBuf(b0, b1, b1))
 			if werr == nil {
 				rp.b0, rp.b1, rp.last = b0, b1, b1
+				rp.raw = false
 			}
 		case opPartial:
 			verifLog("partial")
 			werr = p.SetBytes([]byte{b0, b1})
 			if werr == nil {
 				rp.b0, rp.b1 = b0, b1
+				if rp.raw {
+					rp.last, rp.raw = 0, false
+				}
 			}
 		case opLoadDirty:
 			verifLog("load+markdirty")
@@ -219,6 +234,9 @@ func (s *progState) step(tx *Tx, w *refModel) {
 				buf[0], buf[1] = b0, b1
 				werr = p.MarkDirty()
 				rp.b0, rp.b1 = b0, b1
+				if rp.raw {
+					rp.last, rp.raw = 0, false
+				}
 			}
 		}
 		if rp.flushed {
@@ -302,6 +320,9 @@ func checkView(tx *Tx, m *refModel, what string) {
 		rp := &m.pages[i]
 		p, err := tx.Page(rp.id)
 		verifAssert(err == nil, what+": live page is accessible")
+		if rp.raw {
+			continue
+		}
 		buf, berr := p.Bytes()
 		verifAssert(berr == nil, what+": live page is readable")
 		verifAssert(len(buf) == verifPageSize, what+": page buffer has page size")
